@@ -1033,6 +1033,25 @@ func cmpOutcomeRel(rel string, k int64) string {
 }
 
 // parseGuard interprets an atom as a normalized guard, using be for big.Int terms (be may be nil).
+// unwrapBig: x.Go() and big.Convert(x) are the same integer under its other type (gabi/big.Int wraps math/big.Int):
+// an observer (Sign, BitLen) applied to the conversion observes x.
+func unwrapBig(v ssa.Value) ssa.Value {
+	for k := 0; k < 4; k++ {
+		switch x := v.(type) {
+		case *ssa.ChangeType:
+			v = x.X
+			continue
+		case *ssa.Call:
+			if (isCallTo(x, "big.(*Int).Go") || isCallTo(x, "big.Convert")) && len(callArgs(x)) == 1 {
+				v = callArgs(x)[0]
+				continue
+			}
+		}
+		break
+	}
+	return v
+}
+
 func parseGuard(a Atom, be *BigEval) (Guard, bool) {
 	bo, ok := a.V.(*ssa.BinOp)
 	if !ok {
@@ -1101,13 +1120,15 @@ func parseGuard(a Atom, be *BigEval) (Guard, bool) {
 			if r == "" || r == "true" || r == "false" {
 				return Guard{}, false
 			}
-			return Guard{Kind: "big", Subject: desc(callArgs(c)[0]), SubjV: callArgs(c)[0], Rel: r, Bound: termConst(0), Call: c}, true
+			sv := unwrapBig(callArgs(c)[0])
+			return Guard{Kind: "big", Subject: desc(sv), SubjV: sv, Rel: r, Bound: termConst(0), Call: c}, true
 		case "BitLen":
 			af, ok := affineOf(R)
 			if !ok {
 				return Guard{}, false
 			}
-			return Guard{Kind: "bitlen", Subject: desc(callArgs(c)[0]), SubjV: callArgs(c)[0], Rel: rel, BoundA: af, Call: c}, true
+			sv := unwrapBig(callArgs(c)[0])
+			return Guard{Kind: "bitlen", Subject: desc(sv), SubjV: sv, Rel: rel, BoundA: af, Call: c}, true
 		}
 	}
 	if c, ok := R.(*ssa.Call); ok && bigMethod(c) == "BitLen" {
